@@ -60,3 +60,52 @@ Example C07_example_line :
 Proof. vm_compute. reflexivity. Qed.
 Goal True. idtac "ASSUMPTIONS-OF C07_example_line". Abort.
 Print Assumptions C07_example_line.
+
+(* NOT BEFORE.  Prefix determinism: two inputs that agree up to their k-th item and have the same
+   number of items are parsed identically -- same result, same state apart from the unread rest --
+   until the reader has handed out the first item that differs (every table, every leaf oracle, every
+   fuel).  So either the two parses end with the same result, or the second one has read the changed
+   item: its line counter is at least that item's last line. *)
+From FV Require Import EnginePrefix.
+Theorem C07_parses_agree_until_the_changed_statement_is_read :
+  forall (T : table) (L : item -> cls -> list cls -> leafres) (p r1 r2 : list item) pd fuel c,
+    List.length r1 = List.length r2 ->
+    let x1 := program_top T L fuel c (est0 (p ++ r1) pd) in
+    let x2 := program_top T L fuel c (est0 (p ++ r2) pd) in
+    fst x1 = fst x2 \/ match r2 with i :: _ => ilast i <= maxread (snd x2) | [] => True end.
+Proof. exact changed_statement_is_reached. Qed.
+Goal True. idtac "ASSUMPTIONS-OF C07_parses_agree_until_the_changed_statement_is_read". Abort.
+Print Assumptions C07_parses_agree_until_the_changed_statement_is_read.
+
+(* The reported line is not before the changed statement: when a program that parses to a tree has its
+   k-th statement replaced (and anything after it changed, the number of statements kept) and the
+   result is a syntax error, the error is reported at or after the last line of the k-th statement.
+   With C07_reported_line_not_after_statement_partial (a statement no class matches is never read
+   past) the reported line IS the statement's last line. *)
+Theorem C07_reported_line_not_before_the_changed_statement :
+  forall (T : table) (L : item -> cls -> list cls -> leafres) (p r1 : list item) g rest2 pd fuel c t s1' line s2',
+    List.length r1 = List.length (g :: rest2) ->
+    program_new T L fuel c (est0 (p ++ r1) pd) = (OTree t, s1') ->
+    program_new T L fuel c (est0 (p ++ g :: rest2) pd) = (OSyntax line, s2') ->
+    ilast g <= line.
+Proof. exact error_not_before_change. Qed.
+Goal True. idtac "ASSUMPTIONS-OF C07_reported_line_not_before_the_changed_statement". Abort.
+Print Assumptions C07_reported_line_not_before_the_changed_statement.
+
+(* the hypotheses are met: PROGRAM p / CONTINUE / END PROGRAM p parses to a tree; with the CONTINUE
+   replaced by garbage (same number of items) the syntax error is reported at line 2 *)
+Definition L_c07b (i : item) (c : cls) (_ : list cls) : leafres :=
+  let inf := mkInfo None None None None 1%N (Some 1%N) in
+  if (Nat.eqb (iid i) 0 && N.eqb c Table03.cn_Program_Stmt)
+     || (Nat.eqb (iid i) 5 && N.eqb c Table03.cn_Continue_Stmt)
+     || (Nat.eqb (iid i) 2 && N.eqb c Table03.cn_End_Program_Stmt)
+  then LYes inf else LNo.
+Example C07_example_not_before :
+  let p := [mkItem 0 IKLine false false 1] in
+  let r1 := [mkItem 5 IKLine false false 2; mkItem 2 IKLine false false 3] in
+  let r2 := [mkItem 1 IKLine false false 2; mkItem 2 IKLine false false 3] in
+  (exists t, fst (program_new Table03.tbl L_c07b 60 Table03.c_program (est0 (p ++ r1) false)) = OTree t) /\
+  fst (program_new Table03.tbl L_c07b 60 Table03.c_program (est0 (p ++ r2) false)) = OSyntax 2.
+Proof. cbv zeta. split; [eexists|]; vm_compute; reflexivity. Qed.
+Goal True. idtac "ASSUMPTIONS-OF C07_example_not_before". Abort.
+Print Assumptions C07_example_not_before.
